@@ -157,6 +157,15 @@ def catalogue():
     add("stats.subsample-large", lambda: [[70000, 0, 50000, 3, 12]], lambda a: stats.subsample(a[0], 2000), True)
     add("stats.powerlaw_sample-large", lambda: [], lambda a: stats.powerlaw_sample(size=20000, xmin=1, alpha=2.2), True)
     add("distance.downsample-large", lambda: [[f"s{i % 977}" for i in range(30000)]], lambda a: distance.downsample(a[0], 500), True)
+    # calls that RAISE half-way (reversed bounds, an optimiser option that makes the fit fail): process-wide numeric settings must
+    # be as before afterwards - the entries below whose correct value is inf / nan show it
+    add("stats.powerlaw_mle_alpha-raises-bounds", lambda: [[1, 1, 2, 3, 1, 7, 2, 1, 12]], lambda a: stats.powerlaw_mle_alpha(a[0], method="exact", bounds=[4.5, 1.5]))
+    add("stats.powerlaw_mle_alpha-raises-options", lambda: [[1, 1, 2, 3, 1, 7, 2, 1, 12]],
+        lambda a: stats.powerlaw_mle_alpha(a[0], method="exact", options=dict(maxiter=1)))
+    add("stats.powerlaw_mle_alpha-raises-kwarg", lambda: [[1, 1, 2, 3]], lambda a: stats.powerlaw_mle_alpha(a[0], method="exact", no_such_option=1))
+    add("stats.pc_n-single", lambda: [[1]], lambda a: stats.pc_n(a[0]))
+    add("entropy.renyi2_entropy-no-coincidence", lambda: [pd.DataFrame({"s": ["CA", "CB", "CC", "CD"]})], lambda a: entropy.renyi2_entropy(a[0], "s"))
+    add("distance.pcDelta-empty-bins", lambda: [["CAAA", "CAAD"]], lambda a: distance.pcDelta(a[0], bins=[5, 6, 7]))
     add("stats.powerlaw_mle_alpha-bounds", lambda: [[1, 1, 2, 3, 1, 7, 2, 1, 12]], lambda a: stats.powerlaw_mle_alpha(a[0], method="exact", bounds=[2.5, 3.5]))
     add("stats.powerlaw_mle_alpha", lambda: [[1, 1, 2, 3, 1, 7, 2, 1, 12]], lambda a: [stats.powerlaw_mle_alpha(a[0], method=m) for m in ("simple", "continuitycorrection", "exact")])
     # distance
@@ -201,6 +210,11 @@ def catalogue():
         lambda a: io.standardize_dataframe(a[0], col_mapper=a[1], suppress_warnings=True))
     add("io.standardize_dataframe-mapper-reuse", lambda: [tab().rename(columns={"TRBV": "v_b_gene"}), {"v_b_gene": "TRBV", "g": "group"}],
         lambda a: io.standardize_dataframe(a[0], col_mapper=a[1], suppress_warnings=True))
+    # key in the index, with and without suffixes (no copy is forced by set_index here: the tables handed over are the caller's own)
+    add("io.multimerge-index-suffixes", lambda: [[pd.DataFrame({"x": [1, 2]}, index=["a", "b"]), pd.DataFrame({"x": [3, 4]}, index=["b", "c"])], ["l", "r"]],
+        lambda a: io.multimerge(a[0], "index", suffixes=a[1]))
+    add("io.multimerge-index", lambda: [[pd.DataFrame({"x": [1, 2]}, index=["a", "b"]), pd.DataFrame({"y": [3, 4]}, index=["b", "c"])]],
+        lambda a: io.multimerge(a[0], "index", how="left"))
     add("io.multimerge-inner", lambda: [[pd.DataFrame({"k": ["a", "b"], "x": [1, 2]}), pd.DataFrame({"k": ["b", "c"], "y": [3, 4]})]],
         lambda a: io.multimerge(a[0], "k", how="inner"))
     add("io.multimerge-default", lambda: [[pd.DataFrame({"k": ["a", "b"], "x": [1, 2]}), pd.DataFrame({"k": ["b", "c"], "y": [3, 4]})]],
@@ -268,6 +282,13 @@ def defaults_snapshot():
                 fns += [(f"{nm}.{k}", v) for k, v in vars(obj).items() if inspect.isfunction(v)]
             for q, f in fns:
                 out[f"{mod.__name__}.{q}"] = (snapshot(list(f.__defaults__ or ())), snapshot(dict(f.__kwdefaults__ or {})))
+    # process-wide settings a library call must leave as it found them
+    import numpy as _np
+    import pandas as _pd
+    out["<numpy.geterr>"] = snapshot(dict(_np.geterr()))
+    out["<numpy.printoptions>"] = snapshot({k: repr(v) for k, v in _np.get_printoptions().items()})
+    out["<pandas.mode.copy_on_write / chained_assignment>"] = snapshot({k: repr(_pd.get_option(k)) for k in ("mode.chained_assignment",)})
+    out["<recursionlimit>"] = sys.getrecursionlimit()
     return out
 
 
